@@ -82,6 +82,33 @@ def run_case(spec):
     G = r.randrange(2, 7 if tier == 'quick' else 8)
     focus = r.choice([None, None, 'ngeos', 'share', 'budget', 'size'])
     case = sl.make_case(r, g, G, elig_mode=r.choice(['mixed', 'mixed', 'hostile', 'mostly_ctx', 'none']), focus=focus)
+  variant = None
+  if spec['kind'] == 'random' and case['elig_rows'] is not None and len(case['panel']['ids']) >= 3:
+    ids_ = [str(i) for i in case['panel']['ids']]
+    if spec['idx'] % 10 == 7:
+      # one geo reports only NaN responses: it is not in the canonical table; if its row forbids exclusion the
+      # input must be refused, otherwise it is simply not available
+      variant = 'nan_geo'
+      f = r.choice([gid for gid in ids_ if gid in case['elig_rows']] or ids_)
+      if r.random() < 0.6:
+        case['elig_rows'][f] = r.choice(['c_fixed', 't_fixed', 'ct'])
+      fr = case['frame']
+      fr.loc[fr['geo'].astype(str) == f, 'response'] = float('nan')
+      case['nan_geos'] = [f]
+    elif spec['idx'] % 10 == 8:
+      # a geo that must be included has a perfectly flat response (zero single-geo impact) and n_geos_max binds
+      variant = 'flat_must_include'
+      k = r.randrange(len(ids_))
+      f = ids_[k]
+      case['elig_rows'][f] = r.choice(['c_fixed', 't_fixed', 'ct'])
+      case['panel']['values'][k, :] = float(round(case['panel']['values'][k].mean()))
+      case['panel']['present'][k, :] = True
+      from mmv import gen as _gen  # pylint: disable=g-import-not-at-top
+      case['frame'] = _gen.panel_frame(case['panel'], r, shuffle=True)
+      n_must = sum(1 for c in case['elig_rows'].values() if c in ('c_fixed', 't_fixed', 'ct'))
+      case['params']['n_geos_max'] = max(2, r.choice([n_must, n_must, n_must - 1, n_must + 1]))
+      for k2 in ('budget_range', 'treatment_share_range'):
+        case['params'].pop(k2, None)
   if r.random() < 0.5:
     case['params']['n_designs'] = 100000
   truth = sl.Truth(case)
@@ -117,7 +144,9 @@ def run_case(spec):
   classes_admitted = {truth.row[gid] for gid in (admitted or []) if gid in truth.row}
   nontrivial = returned > 0 and len(classes_admitted) >= 2
   desc = sl.describe(case, with_frame=False)
-  return {'nontrivial': nontrivial, 'fp': util.fp(desc), 'classes': [spec['kind']], 'counters': dict(counters),
+  if variant:
+    counters['variant_' + variant] += 1
+  return {'nontrivial': nontrivial, 'fp': util.fp(desc), 'classes': [spec['kind']] + ([variant] if variant else []), 'counters': dict(counters),
           'outcome': ' '.join(outcomes), 'violations': violations[:10],
           'sample': {'case': desc, 'outcomes': outcomes, 'admitted': sorted(admitted or [])},
           'case': sl.describe(case) if violations else None}
